@@ -1274,7 +1274,12 @@ class SymArray:
             vals = [f(a, b) for a, b in zip(self.cells_list(), o.cells_list())]
         else:
             vals = [f(a, o) for a in self.cells_list()]
-        return SymArray(vals, self.shape, name=self.name + "'", dtype=None)
+        dt = _narrow_result_dtype(self, o)
+        if dt is not None:
+            # numpy computes integer array arithmetic in the (promoted) array dtype and wraps silently: exact for types up to 32 bits
+            span = dt.hi - dt.lo + 1
+            vals = [(((v - dt.lo) % span) + dt.lo) if isinstance(v, (builtins.int, SymInt)) and not isinstance(v, builtins.bool) else v for v in vals]
+        return SymArray(vals, self.shape, name=self.name + "'", dtype=dt)
 
     def __sub__(self, o): return self._ew(o, lambda a, b: a - b)
     def __add__(self, o): return self._ew(o, lambda a, b: a + b)
@@ -1439,6 +1444,32 @@ def const_array(name, data, dtype=None, masq=None):
     a = np.asarray(data)
     cells = [builtins.int(v) if a.dtype.kind in "iub" else float(v) for v in a.flatten().tolist()]
     return SymArray(cells, a.shape, name=name, dtype=dtype, masq=masq)
+
+
+def _narrow_result_dtype(a, o):
+    """result dtype of integer array arithmetic when it is a concrete type of at most 32 bits (then wrap-around is modelled exactly)"""
+    da = a.dtype
+    if da is None or da.lo is None or z3.is_expr(da.lo) or z3.is_expr(da.hi) or da.kind not in "iu":
+        return None
+    if isinstance(o, SymArray):
+        db = o.dtype
+        if db is None or db.lo is None or z3.is_expr(db.lo) or z3.is_expr(db.hi) or db.kind not in "iu":
+            return None
+        lo, hi = builtins.min(da.lo, db.lo), builtins.max(da.hi, db.hi)
+    elif isinstance(o, (builtins.int, SymInt)) and not isinstance(o, builtins.bool):
+        lo, hi = da.lo, da.hi        # a Python / int64 scalar does not widen an integer array (value-based casting aside)
+    else:
+        return None
+    if hi - lo + 1 > 2 ** 32:
+        return None
+    if lo == da.lo and hi == da.hi:
+        return da
+    bits = 8
+    while not (-(2 ** (bits - 1)) <= lo and hi <= 2 ** (bits - 1) - 1) and not (lo >= 0 and hi <= 2 ** bits - 1):
+        bits *= 2
+    if bits > 32:
+        return None
+    return DType(0, 2 ** bits - 1, f"uint{bits}", "u") if lo >= 0 else DType(-(2 ** (bits - 1)), 2 ** (bits - 1) - 1, f"int{bits}", "i")
 
 
 def in_dtype(arr):
